@@ -24,4 +24,5 @@ def run(ctx, rep):
     e4_bitseq.check_display(facts, rep)
     e4_bitseq.check_no_narrowing(facts, rep)
     e4_bitseq.check_from_iter_rejects(facts, rep)
+    e4_bitseq.check_from_str_language(facts, rep)
     rep.callsites += sum(len(facts.bodies[k].calls()) for k in rep.functions if k in facts.bodies)
